@@ -903,6 +903,17 @@ def thread_jumps(b, rounds=4):
     return changed_any
 
 
+def _plain_delegation_target(F, c, sites):
+    """`impl TryFrom<u8> for T { fn try_from(..) {..} }` + `fn from_u8(v) -> .. { T::try_from(v) }`: the trait method of a std
+    conversion trait (From / TryFrom / FromStr / Default) whose only callers are crate functions of the same type's module"""
+    m = re.match(r'^<(.+) as (std|core)::(convert::(TryFrom|TryInto)|str::FromStr)(<.*>)?>::\w+$', c)
+    if not m:
+        return False
+    self_ty = m.group(1)
+    mod = self_ty.rsplit('::', 1)[0] if '::' in self_ty else ''
+    return bool(mod) and all(p.startswith(mod + '::') for p, _ in sites) and len(sites) <= 2
+
+
 def select(F):
     """{callee path: [(caller path, bb)]} of the helpers to splice"""
     anc = anchors()
@@ -919,10 +930,12 @@ def select(F):
     out = {}
     for c, ss in sites.items():
         cb = F.bodies[c]
-        if cb.kind != 'fn' or cb.pub or c in anc or len(cb.blocks) > MAX_BLOCKS or not (1 <= len(ss) <= MAX_SITES):
+        if cb.kind != 'fn' or (cb.pub and not _plain_delegation_target(F, c, ss)) or c in anc or len(cb.blocks) > MAX_BLOCKS or not (1 <= len(ss) <= MAX_SITES):
             continue
-        if any(x in c for x in ('::{', '<impl', ' as ')) or c.startswith('<'):
-            continue        # trait methods / generic impl items: part of an interface, not an extracted helper
+        if any(x in c for x in ('::{', '<impl')):
+            continue        # generic impl items: part of an interface, not an extracted helper
+        if (' as ' in c or c.startswith('<')) and not _plain_delegation_target(F, c, ss):
+            continue        # trait methods stay, unless an inherent fn merely delegates to a std conversion trait implemented next to it
         if 'generated_contracts' in cb.file or cb.path.split('::')[-1].startswith('test'):
             continue
         if any(F.bodies[p].file != cb.file for p, _ in ss):
